@@ -475,7 +475,11 @@ func (bcR *BlockchainReactor) processBlock() error {
 	// NOTE: we can probably make this more efficient, but note that calling
 	// first.Hash() doesn't verify the tx contents, so MakePartSet() is
 	// currently necessary.
-	err = bcR.state.Validators.VerifyCommitLight(chainID, firstID, first.Height, second.LastCommit)
+	// NOTE: every signature is checked (VerifyCommit, not VerifyCommitLight):
+	// second.LastCommit is stored below as the seen commit of first, and consensus
+	// rebuilds its LastCommit from it (reconstructLastCommit), which panics on any
+	// signature that does not verify.
+	err = bcR.state.Validators.VerifyCommit(chainID, firstID, first.Height, second.LastCommit)
 	if err != nil {
 		bcR.Logger.Error("error during commit verification", "err", err,
 			"first", first.Height, "second", second.Height)
